@@ -376,7 +376,7 @@ func runC01(c *Ctx) {
 		c.Direct(tokField(out) == "toks="+hxList(want5), "type-5 tokens are not type‖nonce_i‖SHA-256(challenge)‖key id‖VOPRF output, in nonce order", map[string]any{"n": nTok, "challenge": hx(challenge), "nonces": hxList(nonces), "impl": out})
 		// ---- type 3 ----
 		if i%2 == 0 {
-			origin := r.Bytes([]int{1, 14, 31, 32, 33, 70, 200}[i/2%7])
+			origin := r.Bytes([]int{0, 1, 14, 31, 32, 33, 63, 64, 70, 200, 8191, 8192, 8200}[i/2%13])
 			// names are opaque strings: letters of both cases, digits, dots, a trailing dot, spaces, bytes ≥ 0x80 — never a trailing NUL
 			alpha := []byte("abcdefghijklmnopqrstuvwxyzABCDEFGHIJKLMNOPQRSTUVWXYZ0123456789.-_/ \xc3\xa9")
 			for k := range origin {
